@@ -531,7 +531,7 @@ func (env *rEnv) eval(n *rNode) Value {
 			return env.mapIndex(mv, env.eval(n.Args[1]), n)
 		}
 		if xa, ok := base.(VAbs); ok && xa.Kind == "strslice" {
-			return sym(Select(xa.Data.(*StrSlice).Arr, env.term(n.Args[1]), SStr))
+			return sym(xa.Data.(*StrSlice).at(env.term(n.Args[1])))
 		}
 		if sl, ok := base.(VSlice); ok {
 			if idx, okc := constIndex(env.eval(n.Args[1])); okc {
